@@ -946,15 +946,60 @@ package dig
 //@ pure func treeInv() Bool = childrenLinked() && childListsSeparate() && graphsSeparate() && registriesSeparate() && decoratorMapsSeparate()
 
 // shape contracts of the signature parsers (what the rest of the code relies on)
-//@ func newParamList(ctype, c) (pl, err)
-//@   trusted
-//@   requires ctype != nil && kind(ctype) == kFunc() && isScope(c)
-//@   modifies graphHolder.nodes, elems(*graphNode), map(constructorNode.orders)
+//@ func embedsType(i, e) (b)
+//@   allocates plain
+//@   loop for i < t.NumField() #1: complete[C15:every-field-is-considered-when-looking-for-an-embedded-marker,C09:every-field-is-considered-when-looking-for-an-embedded-marker]
+
+//@ locset graphgrow = graphHolder.nodes, elems(*graphNode), map(constructorNode.orders)
+//@ pure func graphsOnlyGrow() Bool = (forall g *graphHolder :: { g.nodes } existed(g) ==> len(g.nodes) >= old(len(g.nodes))) && (forall g *graphHolder, j int :: existed(g) && 0 <= j && j < old(len(g.nodes)) ==> g.nodes[j] == old(g.nodes[j]))
+
+//@ func newParam(t, c) (p, err)
+//@   requires t != nil && isScope(c) && treeInv()
+//@   modifies @graphgrow
 //@   allocates
-//@   ensures err == nil ==> pl.ctype == ctype && wfParamList(pl)
-//@   ensures (forall g *graphHolder :: { g.nodes } existed(g) ==> len(g.nodes) >= old(len(g.nodes))) && (forall g *graphHolder, j int :: existed(g) && 0 <= j && j < old(len(g.nodes)) ==> g.nodes[j] == old(g.nodes[j]))
-//@   ensures treeInv()
+//@   ensures[C15:a-parameter-is-a-single-an-object-or-a-group] err == nil ==> p != nil && !is(p, paramList)
+//@   ensures[C15:a-plain-type-is-a-required-unnamed-single] err == nil && is(p, paramSingle) ==> as(p, paramSingle).Type == t && as(p, paramSingle).Name == "" && !as(p, paramSingle).Optional
+//@   ensures[C06:parsing-a-parameter-only-appends-graph-nodes] graphsOnlyGrow() && treeInv() && (forall m map[*Scope]int :: existed(m) ==> mapeq(m))
+
+//@ func newParamObject(t, c) (po, err)
+//@   requires t != nil && isScope(c) && treeInv()
+//@   modifies @graphgrow
+//@   allocates
+//@   ensures[C15:parameter-object-keeps-its-struct-type] err == nil ==> po.Type == t
+//@   ensures[C15:object-fields-index-into-the-struct] err == nil ==> (forall j int :: 0 <= j && j < len(po.Fields) ==> okField(po.Fields[j], t))
+//@   ensures[C06:parsing-an-object-only-appends-graph-nodes] graphsOnlyGrow() && treeInv() && (forall m map[*Scope]int :: existed(m) ==> mapeq(m))
+//@   loop for i < t.NumField() #2: invariant[C15:object-fields-so-far] 0 <= i && (forall j int :: 0 <= j && j < len(po.Fields) ==> okField(po.Fields[j], t)) && po.Type == t && (cap(po.Fields) == 0 || fresh(po.Fields))
+//@   loop for i < t.NumField() #2: invariant[C06:object-parse-keeps-the-graphs] graphsOnlyGrow() && treeInv() && (forall m map[*Scope]int :: existed(m) ==> mapeq(m))
+//@   loop for i < t.NumField() #1: invariant[C06:object-scan-keeps-the-graphs] graphsOnlyGrow() && treeInv() && (forall m map[*Scope]int :: existed(m) ==> mapeq(m)) && kept(@graphgrow)
+//@   site call dig.newParamObjectField #1: assert[C15:field-parsed-with-its-own-index] $arg0 == i && isScope($arg2) && $arg2 == c
+
+//@ func newParamObjectField(idx, f, c) (pof, err)
+//@   requires isScope(c) && treeInv() && f.Type != nil
+//@   modifies @graphgrow
+//@   allocates
+//@   ensures[C15:field-keeps-its-index] pof.FieldIndex == idx
+//@   ensures[C15:field-has-a-parameter] err == nil ==> pof.Param != nil && !is(pof.Param, paramList)
+//@   ensures[C14:unexported-field-is-rejected,C15:unexported-field-is-rejected] f.PkgPath != "" ==> err != nil
+//@   ensures[C06:parsing-a-field-only-appends-graph-nodes] graphsOnlyGrow() && treeInv() && (forall m map[*Scope]int :: existed(m) ==> mapeq(m))
+
+//@ func newParamGroupedSlice(f, c) (pg, err)
+//@   requires isScope(c) && treeInv() && f.Type != nil
+//@   modifies @graphgrow
+//@   allocates
+//@   ensures[C10:group-parameter-is-a-slice,C14:group-parameter-is-a-slice] err == nil ==> pg.Type == f.Type && kind(pg.Type) == kSlice()
+//@   ensures[C06:parsing-a-group-parameter-only-appends-graph-nodes] graphsOnlyGrow() && treeInv() && (forall m map[*Scope]int :: existed(m) ==> mapeq(m))
+
+//@ func newParamList(ctype, c) (pl, err)
+//@   requires ctype != nil && kind(ctype) == kFunc() && isScope(c) && treeInv()
+//@   modifies @graphgrow
+//@   allocates
+//@   ensures[C15:one-parameter-per-non-variadic-argument] err == nil ==> pl.ctype == ctype && wfParamList(pl)
+//@   ensures[C06:parsing-parameters-only-appends-graph-nodes] graphsOnlyGrow() && treeInv()
 //@   ensures forall m map[*Scope]int :: existed(m) ==> mapeq(m)
+//@   loop for i < numArgs #1: invariant[C15:parameters-so-far] 0 <= i && i <= numArgs && numArgs == (isVariadic(ctype) ? numIn(ctype) - 1 : numIn(ctype)) && len(pl.Params) == i && pl.ctype == ctype
+//@        && (forall j int :: 0 <= j && j < i ==> pl.Params[j] != nil && !is(pl.Params[j], paramList)) && fresh(pl.Params)
+//@   loop for i < numArgs #1: invariant[C06:parameter-parse-keeps-the-graphs] graphsOnlyGrow() && treeInv() && (forall m map[*Scope]int :: existed(m) ==> mapeq(m))
+//@   site call dig.newParam #1: assert[C15:each-argument-type-parsed-in-order] $arg0 == inT(ctype, i) && $arg1 == c
 
 //@ func newResultList(ctype, opts) (rl, err)
 //@   trusted
